@@ -157,3 +157,30 @@ text("h2-available-demorgan", A + "http2.py",
      "            and not (\n                self._h2_state.state_machine.state\n                == h2.connection.ConnectionState.CLOSED\n            )",
      "            and self._h2_state.state_machine.state\n            != h2.connection.ConnectionState.CLOSED")
 text("socks-timeout-read-key", A + "socks_proxy.py", "                        \"auth\": self._proxy_auth,\n                        \"timeout\": timeout,", "                        \"auth\": self._proxy_auth,\n                        \"timeout\": timeouts.get(\"read\", None),")
+
+# ---- extract-method refactors (undone by hcverif/inline.py before analysis) --------------------------------------------
+def _extract_cleanup(tmp: str) -> bool:
+    ok = apply_text(tmp, A + "connection_pool.py",
+                    "        closing_connections = []\n\n        # First we handle cleaning up any connections that are closed,\n        # have expired their keep-alive, or surplus idle connections.\n        for connection in list(self._connections):",
+                    "        closing_connections: list[AsyncConnectionInterface] = []\n        self._drop_stale_connections(closing_connections)\n        self._assign_queued(closing_connections)\n        return closing_connections\n\n    def _drop_stale_connections(self, closing_connections: list[AsyncConnectionInterface]) -> None:\n        for connection in list(self._connections):")
+    ok = ok and apply_text(tmp, A + "connection_pool.py",
+                           "        # Assign queued requests to connections.\n        queued_requests = [request for request in self._requests if request.is_queued()]",
+                           "    def _assign_queued(self, closing_connections: list[AsyncConnectionInterface]) -> None:\n        queued_requests = [request for request in self._requests if request.is_queued()]")
+    ok = ok and apply_text(tmp, A + "connection_pool.py", "                pool_request.assign_to_connection(connection)\n\n        return closing_connections\n", "                pool_request.assign_to_connection(connection)\n")
+    return ok
+
+
+V("extract-cleanup-pass", _extract_cleanup)
+text("extract-set-idle", A + "http11.py",
+     "                self._state = HTTPConnectionState.IDLE\n                self._h11_state.start_next_cycle()\n                if self._keepalive_expiry is not None:\n                    now = time.monotonic()\n                    self._expire_at = now + self._keepalive_expiry\n            else:\n                await self.aclose()",
+     "                self._become_idle()\n            else:\n                await self.aclose()\n\n    def _become_idle(self) -> None:\n        self._state = HTTPConnectionState.IDLE\n        self._h11_state.start_next_cycle()\n        if self._keepalive_expiry is not None:\n            now = time.monotonic()\n            self._expire_at = now + self._keepalive_expiry")
+def _extract_timeout(tmp: str) -> bool:
+    ok = apply_text(tmp, A + "http11.py",
+                    "        timeouts = request.extensions.get(\"timeout\", {})\n        timeout = timeouts.get(\"write\", None)\n\n        with map_exceptions",
+                    "        timeout = _get_timeout(request, \"write\")\n\n        with map_exceptions")
+    ok = ok and apply_text(tmp, A + "http11.py", "class HTTPConnectionState(enum.IntEnum):",
+                           "def _get_timeout(request: Request, key: str) -> float | None:\n    timeouts = request.extensions.get(\"timeout\", {})\n    return timeouts.get(key, None)\n\n\nclass HTTPConnectionState(enum.IntEnum):")
+    return ok
+
+
+V("extract-timeout-helper", _extract_timeout)
